@@ -119,6 +119,14 @@ theorem C20_bytes_untouched :
     bundleProducerBytesFlow = ["lhs:json.MarshalIndent", "arg:os.WriteFile"] ∧
     bundleConsumerBytesFlow = ["lhs:io.ReadAll", "arg:json.Unmarshal"] := by decide
 
+/-- Regenerated: inside the loader's loop over `files` an entry is skipped only when it is not an object or has no
+    string `content` (the two type-assertion guards) — nothing else decides, so equal texts are all kept; the
+    bundler's loop takes every `.cql` entry it can read. -/
+theorem C20_loops_keep_every_entry :
+    bundleConsumerLoop = ["if:ok", "if:ok", "append:rules<-content"] ∧
+    bundleProducerLoop.take 3 = ["if:filepath.Ext(entry.Name()) == \".cql\"", "if:err != nil", "return"] ∧
+    bundleProducerLoop.length = 4 := by decide
+
 /-- Non-vacuity: quotes, backslash, newline, `<`, U+2028 and a non-BMP character; a non-.cql file is skipped. -/
 example :
     consume (produce [⟨"a.cql".toList, "say \"hi\" \\ <b>\n 😀".toList⟩, ⟨"notes.txt".toList, "x".toList⟩, ⟨"b.x.cql".toList, [Char.ofNat 1]⟩])
